@@ -519,7 +519,11 @@ class Representation(ObjectWithFields):
             segment_num = int(segment_time // self.segment_duration)
 
         seg_delta = self.timescale_to_timedelta(timecode)
-        fta = timing.firstAvailableTime - timing.leeway
+        # A segment stays available until its availability end time (see above):
+        # its start, plus its duration twice, plus timeShiftBufferDepth. The oldest
+        # available segment therefore starts two durations before firstAvailableTime
+        fta = (timing.firstAvailableTime - timing.leeway -
+               self.timescale_to_timedelta(2 * self.segment_duration))
         if (
                 seg_delta < fta or
                 seg_delta > timing.elapsedTime
